@@ -139,6 +139,18 @@ def _is_generator(fnode):
     return False
 
 
+def _native(fn, *a, **k):
+    """run a stdlib routine on concrete operands; an exception it raises is what the analysed program would raise there"""
+    try:
+        return fn(*a, **k)
+    except (Unsupported, Unknown, Crash, Raised):
+        raise
+    except StopIteration:
+        raise Crash('StopIteration')
+    except Exception as e_:      # noqa: the operands are concrete, the exception is the program's
+        raise Crash(f'{type(e_).__name__}: {e_}')
+
+
 def _stdlib(modname, attr):
     """the few stdlib objects the analysed source uses as plain utilities; calling them runs the stdlib itself (trusted, A1)"""
     import collections, io, itertools
@@ -368,21 +380,31 @@ class Evaluator:
             return self.call(n, env)
         if isinstance(n, ast.Lambda):
             return MiniFunc(self, n, env)
-        if isinstance(n, ast.GeneratorExp) or isinstance(n, ast.ListComp):
-            if len(n.generators) == 1 and isinstance(n.generators[0].target, (ast.Name, ast.Tuple)):
-                g = n.generators[0]
-                it = self.ev(g.iter, env)
-                out = []
-                for x in it:
-                    e2 = dict(env)
-                    if isinstance(g.target, ast.Name):
-                        e2[g.target.id] = x
-                    else:
-                        for t_, v_ in zip(g.target.elts, x):
-                            e2[t_.id] = v_
+        if isinstance(n, (ast.GeneratorExp, ast.ListComp, ast.SetComp)) and all(isinstance(g.target, (ast.Name, ast.Tuple)) and not g.is_async for g in n.generators):
+            out = []
+
+            def bind(t_, x, e2):
+                if isinstance(t_, ast.Name):
+                    e2[t_.id] = x
+                else:
+                    xs = list(x)
+                    if len(xs) != len(t_.elts):
+                        raise Crash(f'ValueError: cannot unpack {len(xs)} values into {len(t_.elts)} targets')
+                    for tt_, v_ in zip(t_.elts, xs):
+                        bind(tt_, v_, e2)
+
+            def rec(i, e1):
+                if i == len(n.generators):
+                    out.append(self.ev(n.elt, e1))
+                    return
+                g = n.generators[i]
+                for x in self._iterate(self.ev(g.iter, e1), g.iter):
+                    e2 = dict(e1)
+                    bind(g.target, x, e2)
                     if all(self.truth(self.ev(c, e2)) for c in g.ifs):
-                        out.append(self.ev(n.elt, e2))
-                return out
+                        rec(i + 1, e2)
+            rec(0, env)
+            return frozenset(out) if isinstance(n, ast.SetComp) else out
         raise Unsupported(type(n).__name__)
 
     def truth(self, v):
@@ -528,13 +550,15 @@ class Evaluator:
             return self._construct(env[f.id], args, kw)
         if isinstance(f, ast.Name) and f.id in env and (isinstance(env[f.id], MiniFunc) or callable(env[f.id])) and not isinstance(env[f.id], type):
             args, kw = self._args(n, env)
-            return env[f.id](*args, **kw)
+            if isinstance(env[f.id], (MiniFunc,)) or getattr(env[f.id], '__name__', '') == '<lambda>':
+                return env[f.id](*args, **kw)
+            return _native(env[f.id], *args, **kw)
         # a stdlib utility reached through its module: itertools.islice(...)
         if isinstance(f, ast.Attribute) and isinstance(f.value, ast.Name) and f.value.id not in env:
             imp_ = self.mod.imports.get(f.value.id)
             if imp_ and imp_[0] == 'module' and _stdlib(imp_[1], f.attr) is not None:
                 a2, kw = self._args(n, env)
-                return _stdlib(imp_[1], f.attr)(*a2, **kw)
+                return _native(_stdlib(imp_[1], f.attr), *a2, **kw)
         # construction of a token / group of sqlparse.sql
         root_ = f
         while isinstance(root_, ast.Attribute):
@@ -690,7 +714,7 @@ class Evaluator:
             imp_ = self.mod.imports.get(f.id)
             if fv is not None and imp_ and imp_[0] == 'object' and fv is _stdlib(imp_[1], imp_[2]):
                 a2, kw = self._args(n, env)
-                return fv(*a2, **kw)
+                return _native(fv, *a2, **kw)
             raise Unsupported(f'call {f.id}')
         if isinstance(f, ast.Attribute):
             # token.match(...)
@@ -761,12 +785,12 @@ class Evaluator:
                 a2, kw = self._args(n, env)
                 return MiniFunc(sub, m.node, {}, m.short)(*a2, **kw)
             if type(base).__name__ == 'Match' and f.attr in ('group', 'groups', 'start', 'end', 'span'):
-                return getattr(base, f.attr)(*[self.ev(a, env) for a in n.args])
+                return _native(getattr(base, f.attr), *[self.ev(a, env) for a in n.args])
             if isinstance(base, str) and f.attr in STR_METHODS:
                 args = [self.ev(a, env) for a in n.args]
                 if f.attr == 'join':
-                    return base.join(list(args[0]))
-                return getattr(base, f.attr)(*args)
+                    return _native(base.join, list(args[0]))
+                return _native(getattr(base, f.attr), *args)
             if isinstance(base, (list, tuple)) and f.attr in ('index', 'count'):
                 return getattr(base, f.attr)(*[self.ev(a, env) for a in n.args])
             raise Unsupported(f'method {src(f)}')
